@@ -114,7 +114,9 @@ func Harness_C06_objline_string() {
 }
 
 var zz6Zones = []*time.Location{time.UTC, time.FixedZone("", 7*3600), time.FixedZone("", -(3*3600 + 1800))}
-var zz6Instants = []int64{0, 1, 1600000000, 9999999999}
+// the time field is 16 bytes: ten characters of Unix seconds, a space, a five-character
+// zone. Instants 4.. lie at and beyond the edges of what ten characters hold.
+var zz6Instants = []int64{0, 1, 1600000000, 9999999999, 10000000000, -1, -999999999, -1000000000, 253402300800}
 
 func Harness_C06_commit() {
 	np := zzverif.Param("parents", 1)
@@ -128,6 +130,11 @@ func Harness_C06_commit() {
 	}
 	buf := bytes.NewBuffer(nil)
 	n, err := c.WriteTo(buf)
+	if ti >= 0 && (zz6Instants[ti] > 9999999999 || zz6Instants[ti] < -999999999) {
+		zzverif.Assert("instant-that-does-not-fit-the-time-field-is-refused-at-write-time", err != nil)
+		zzverif.Reach("end")
+		return
+	}
 	zzverif.Assert("commit-written", err == nil && n == int64(buf.Len()))
 	n2, got, err := ReadCommitFrom(bytes.NewReader(buf.Bytes()))
 	zzverif.Assert("commit-decodes", err == nil && n2 == n)
